@@ -5,6 +5,7 @@ import (
 	"expvar"
 	"fmt"
 	"os"
+	"path/filepath"
 	"runtime"
 	"time"
 )
@@ -127,7 +128,13 @@ func WriteToFile(p *Plan, path string) error {
 	if err := syncFileMaybe(tmpPath); err != nil {
 		return err
 	}
-	return os.Rename(tmpPath, path)
+	if err := os.Rename(tmpPath, path); err != nil {
+		return err
+	}
+	// Make the plan's directory entry durable before the caller starts executing
+	// the plan: the operations that follow are destructive and must never survive
+	// a power loss that loses the plan describing how to finish them.
+	return syncFileMaybe(filepath.Dir(path))
 }
 
 // Len returns the number of operations in the plan.
